@@ -5,7 +5,7 @@
 
    Strings are Coq [string]s = lists of bytes, which is what Go's indexing, strings.Cut,
    strings.Split (1-byte separator), strings.TrimLeft and == operate on. *)
-From Coq Require Import ZArith List Bool String Ascii.
+From Coq Require Import ZArith NArith List Bool String Ascii.
 From NV Require Import Gen.Gen_Affinity.
 Import ListNotations.
 Open Scope string_scope.
@@ -387,7 +387,7 @@ Definition ob_eqb (a b : option bool) : bool :=
 
 (* one observation of the real Validate / Evaluate / KeyValue:
    (case id, expression, subject, Validate()==nil, Evaluate (None = panicked), KeyValue) *)
-Record ecase := ECase { c_id : nat; c_expr : expr; c_subj : subject;
+Record ecase := ECase { c_id : N; c_expr : expr; c_subj : subject;
                         c_valid : bool; c_eval : option bool; c_kv : string * bool }.
 
 Definition ecase_ok (c : ecase) : bool :=
@@ -396,13 +396,13 @@ Definition ecase_ok (c : ecase) : bool :=
   (let kv := key_value_impl (e_key (c_expr c)) (c_subj c) in
    (fst kv =? fst (c_kv c)) && Bool.eqb (snd kv) (snd (c_kv c))).
 
-Definition e_mismatches (cs : list ecase) : list nat :=
+Definition e_mismatches (cs : list ecase) : list N :=
   map c_id (filter (fun c => negb (ecase_ok c)) cs).
 
 (* affinity weights: (id, negative default?, parsed weight, observed weight) *)
-Definition w_mismatches (cs : list (nat * bool * Z * Z)) : list nat :=
-  map (fun c : nat * bool * Z * Z => fst (fst (fst c)))
-      (filter (fun c : nat * bool * Z * Z =>
+Definition w_mismatches (cs : list (N * bool * Z * Z)) : list N :=
+  map (fun c : N * bool * Z * Z => fst (fst (fst c)))
+      (filter (fun c : N * bool * Z * Z =>
                  let anti := snd (fst (fst c)) in
                  let w := snd (fst c) in
                  let obs := snd c in
@@ -410,7 +410,7 @@ Definition w_mismatches (cs : list (nat * bool * Z * Z)) : list nat :=
 
 (* balloon choice.  Observed: "" = error, otherwise the chosen type's name ("!" = panic);
    [b_cfg_ok] = the real policy accepted the configuration. *)
-Record bcase := BCase { b_id : nat; b_opts : bopts; b_anns : list (string * string); b_cname : string;
+Record bcase := BCase { b_id : N; b_opts : bopts; b_anns : list (string * string); b_cname : string;
                         b_subj : subject; b_ns : string; b_cfg_ok : bool; b_obs : string }.
 
 Definition choice_name (c : choice) : string :=
@@ -425,5 +425,5 @@ Definition bcase_ok (c : bcase) : bool :=
                            (b_subj c) (b_ns c)) =? b_obs c)
   end.
 
-Definition b_mismatches (cs : list bcase) : list nat :=
+Definition b_mismatches (cs : list bcase) : list N :=
   map b_id (filter (fun c => negb (bcase_ok c)) cs).
